@@ -33,18 +33,25 @@ CONSTANTS Source,        \* "enum" | "file"
 \*   nerr   markup errors in the docstring        -> ONE reportErrors(obj, errs, 'docstring') with nerr errors
 \*   expr   signature that cannot be rendered     -> reportErrors(obj, [e], 'signature')
 \*   regex  constant whose regex cannot be parsed -> reportWarnings(section='colorize constant')
-ObjCfg == [fmt : {"rst", "epy"}, xref : BOOLEAN, field : BOOLEAN, nerr : 0..2, expr : BOOLEAN, regex : BOOLEAN]
+\*   shape  func   the problems sit in a function's docstring: everything is found while the pages are rendered
+\*          class  ... in a class's OWN docstring: it is parsed while the module is BUILT (extract_fields in visit_ClassDef,
+\*                 astbuilder.py), so its markup errors are reported - under the name the class has at that moment - long
+\*                 before anything is rendered
+\*          reexp  a class defined in a private module and re-exported through __all__ of its package: after its module is
+\*                 built the class is MOVED (pkg._impl.K -> pkg.K, model.Documentable.reparent); the name recorded in
+\*                 parse_errors is then the name of nothing
+ObjCfg == [shape : {"func", "class", "reexp"}, fmt : {"rst", "epy"}, xref : BOOLEAN, field : BOOLEAN, nerr : 0..2, expr : BOOLEAN, regex : BOOLEAN]
 \* a fatal epytext error turns the whole docstring into plain text: nothing else in it is markup any more
-Realisable(c) == c.fmt = "epy" => (c.nerr <= 1 /\ (c.nerr = 1 => ~c.xref /\ ~c.field))
+Realisable(c) == /\ (c.fmt = "epy" => (c.nerr <= 1 /\ (c.nerr = 1 => ~c.xref /\ ~c.field)))
+                 /\ (c.shape # "func" => ~c.expr /\ ~c.regex)
 Clean(c) == ~c.xref /\ ~c.field /\ c.nerr = 0 /\ ~c.expr /\ ~c.regex
-Menu == {c \in ObjCfg : c.fmt = "rst" /\ ~c.xref /\ ~c.field /\ ~c.expr /\ ~c.regex /\ c.nerr <= 1}
+Menu == {c \in ObjCfg : c.shape = "func" /\ c.fmt = "rst" /\ ~c.xref /\ ~c.field /\ ~c.expr /\ ~c.regex /\ c.nerr <= 1}
 Events(o, c) == (IF c.xref THEN {[o |-> o, kind |-> "xref", n |-> 1]} ELSE {})
            \cup (IF c.field THEN {[o |-> o, kind |-> "field", n |-> 1]} ELSE {})
            \cup (IF c.nerr > 0 THEN {[o |-> o, kind |-> "parse", n |-> c.nerr]} ELSE {})
            \cup (IF c.expr THEN {[o |-> o, kind |-> "expr", n |-> 1]} ELSE {})
            \cup (IF c.regex THEN {[o |-> o, kind |-> "regex", n |-> 1]} ELSE {})
 Order(e) == CASE e.kind = "parse" -> 1 [] e.kind = "xref" -> 2 [] e.kind = "field" -> 3 [] e.kind = "expr" -> 4 [] e.kind = "regex" -> 5
-Key(e) == 10 * e.o + Order(e)
 
 Traces == IF Source = "file" THEN JsonDeserialize(IOEnv.TRACE_FILE) ELSE <<>>
 ASSUME TLCSet(1, {})
@@ -58,8 +65,9 @@ VARIABLES tid,         \* 0 (enum) or the index of the trace being validated
           printed,     \* number of "<path>:<line>: ..." problem lines written to stdout
           sumlines,    \* number of summary lines written by main
           met,         \* ghost: problems met so far, as records [kind, o, n]
+          moved,       \* enum: the re-exported objects that have been moved already; file: the <<old name, new name>> pairs seen
           exit         \* -1 while running, else the value returned by main
-vars == <<tid, cfg, W, V, todo, violations, perr, printed, sumlines, met, exit>>
+vars == <<tid, cfg, W, V, todo, violations, perr, printed, sumlines, met, moved, exit>>
 
 InitEnum == /\ Source = "enum" /\ tid = 0
             /\ cfg \in [Objs -> {c \in ObjCfg : Realisable(c)}]
@@ -70,7 +78,7 @@ InitFile == /\ Source = "file" /\ tid \in 1..Len(Traces) /\ cfg = 0
             /\ W = Traces[tid].W /\ V = Traces[tid].V
             /\ todo = 1
 Init == /\ (InitEnum \/ InitFile)
-        /\ violations = 0 /\ perr = {} /\ printed = 0 /\ sumlines = 0 /\ met = {} /\ exit = 0 - 1
+        /\ violations = 0 /\ perr = {} /\ printed = 0 /\ sumlines = 0 /\ met = {} /\ moved = {} /\ exit = 0 - 1
 
 \* ------------------------------------------------------------------ the mechanism
 Shown(thresh, top) == thresh <= V /\ V <= top                       \* model.py:1070
@@ -85,24 +93,39 @@ ReportErrors(section, o, n) ==
       ELSE perr' = perr \cup {<<section, o>>} /\ ReportN(n)
 Section(kind) == IF kind = "expr" THEN "signature" ELSE "docstring"
 
+\* the name an object is known by right now (what obj.fullName() returns): it changes when the object is moved
+Name(o) == <<o, o \in moved>>
+\* found while the module is built (before any move) / while the pages are rendered (after every move)
+BuildPhase(e) == e.kind = "parse" /\ cfg[e.o].shape # "func"
+ToMove == {o \in Objs : cfg[o].shape = "reexp" /\ o \notin moved}
+Key(e) == (IF BuildPhase(e) THEN 0 ELSE 100) + 10 * e.o + Order(e)
 \* enum: meet one planted problem
 Meet(e) == /\ exit = 0 - 1 /\ Source = "enum" /\ e \in todo
            /\ (Interleave \/ \A f \in todo : Key(f) >= Key(e))
+           /\ (BuildPhase(e) => e.o \notin moved)
+           /\ (~BuildPhase(e) => ToMove = {} /\ \A f \in todo : ~BuildPhase(f))
            /\ todo' = todo \ {e}
            /\ met' = met \cup {e}
-           /\ IF e.kind \in {"parse", "expr"} THEN ReportErrors(Section(e.kind), e.o, e.n)
+           /\ IF e.kind \in {"parse", "expr"} THEN ReportErrors(Section(e.kind), Name(e.o), e.n)
               ELSE ReportN(1) /\ UNCHANGED perr
-           /\ UNCHANGED <<sumlines, exit>>
+           /\ UNCHANGED <<sumlines, moved, exit>>
+\* astbuilder: __all__ of the package re-exports the class: reparent().  Nothing is recorded anywhere about the old name.
+Move(o) == /\ exit = 0 - 1 /\ Source = "enum" /\ o \in ToMove
+           /\ \A f \in todo : ~(BuildPhase(f) /\ f.o = o)             \* its module has been built
+           /\ moved' = moved \cup {o}
+           /\ UNCHANGED <<todo, violations, perr, printed, sumlines, met, exit>>
+\* names in parse_errors that no longer designate an object
+Stale == {p \in perr : p[2] # Name(p[2][1])}
 
 DocErrs == {p \in perr : p[1] = "docstring"}
-\* driver.py:171-190
+\* driver.py:171-190: main looks at the SETS of names, never at the objects: a stale name counts like any other
 ExitCode(v) == IF W /\ v > 0 THEN 3 ELSE IF perr # {} THEN 2 ELSE 0
 SummaryMsgs == IF DocErrs # {} THEN 1 + Cardinality(DocErrs) ELSE 0   \* p(..) : msg('docstring-summary', .., thresh=-1, topthresh=1)
-Finish == /\ exit = 0 - 1 /\ Source = "enum" /\ todo = {}
+Finish == /\ exit = 0 - 1 /\ Source = "enum" /\ todo = {} /\ ToMove = {}
           /\ violations' = violations + SummaryMsgs * Counted(0 - 1)
           /\ sumlines' = sumlines + (IF Shown(0 - 1, 1) THEN SummaryMsgs ELSE 0)
           /\ exit' = ExitCode(violations')
-          /\ UNCHANGED <<todo, perr, printed, met>>
+          /\ UNCHANGED <<todo, perr, printed, met, moved>>
 
 \* ------------------------------------------------------------------ file: validate a recorded run
 Ev == Traces[tid].ev[todo]
@@ -111,21 +134,27 @@ TMsg == /\ Source = "file" /\ exit = 0 - 1 /\ todo <= Len(Traces[tid].ev) /\ Ev.
         /\ violations' = Ev.v                                           \* the logged counter
         /\ printed' = printed + (IF Ev.problem /\ Shown(Ev.thresh, Ev.top) THEN 1 ELSE 0)
         /\ (Ev.problem => Ev.shown = Shown(Ev.thresh, Ev.top))
-        /\ UNCHANGED <<perr, sumlines, met, exit>>
+        /\ UNCHANGED <<perr, sumlines, met, moved, exit>>
 TReportErrors == /\ Source = "file" /\ exit = 0 - 1 /\ todo <= Len(Traces[tid].ev) /\ Ev.op = "reportErrors"
                  /\ ReportErrors(Ev.section, Ev.o, Ev.n)
                  /\ violations' = Ev.v
                  /\ (<<Ev.section, Ev.o>> \in perr') = Ev.has
                  /\ met' = met \cup {[kind |-> (IF Ev.section = "docstring" THEN "parse" ELSE "expr"), o |-> Ev.o, n |-> Ev.n]}
-                 /\ UNCHANGED <<sumlines, exit>>
+                 /\ UNCHANGED <<sumlines, moved, exit>>
+\* Documentable.reparent: the object is known by another name from now on; no counter, no set changes
+TMove == /\ Source = "file" /\ exit = 0 - 1 /\ todo <= Len(Traces[tid].ev) /\ Ev.op = "move"
+         /\ moved' = moved \cup {<<Ev.o, Ev.to>>}
+         /\ Ev.v = violations /\ Ev.perr = Cardinality(perr)
+         /\ UNCHANGED <<violations, perr, printed, sumlines, met, exit>>
 TExit == /\ Source = "file" /\ exit = 0 - 1 /\ todo <= Len(Traces[tid].ev) /\ Ev.op = "exit"
          /\ Ev.code = ExitCode(violations)
          /\ Ev.perr = Cardinality(perr)
          /\ exit' = Ev.code
-         /\ UNCHANGED <<violations, perr, printed, sumlines, met>>
-TraceNext == (TMsg \/ TReportErrors \/ TExit) /\ todo' = todo + 1
+         /\ UNCHANGED <<violations, perr, printed, sumlines, met, moved>>
+TraceNext == (TMsg \/ TReportErrors \/ TMove \/ TExit) /\ todo' = todo + 1
 
 Next == /\ \/ \E e \in (IF Source = "enum" THEN todo ELSE {}) : Meet(e)
+           \/ \E o \in (IF Source = "enum" THEN Objs ELSE {}) : Move(o)
            \/ Finish
            \/ TraceNext
         /\ UNCHANGED <<tid, cfg, W, V>>
@@ -140,6 +169,8 @@ EveryReportCounted == printed <= violations
 ExitW == (Done /\ W) => (exit = 3 <=> printed > 0)
 \* no -W: status 2 exactly when something could not be parsed, 0 otherwise
 ExitNoW == (Done /\ ~W) => (exit = (IF Unparsed THEN 2 ELSE 0))
+\* a problem reported under a name that went stale afterwards is a reported problem all the same
+StaleStillCounts == (Done /\ Source = "enum" /\ ~W /\ Stale # {}) => exit = 2
 \* enum only: nothing that was planted is lost: one line per problem, one per markup error (n is 1 or 2)
 NothingLost == (Done /\ Source = "enum") => printed = Cardinality(met) + Cardinality({e \in met : e.n = 2})
 
@@ -147,7 +178,7 @@ NothingLost == (Done /\ Source = "enum") => printed = Cardinality(met) + Cardina
 EmitTerminal == (Done /\ Source = "enum") =>
     PrintT(ToJson([cfg |-> [o \in Objs |-> cfg[o]], objs |-> Cardinality(Objs), W |-> W, V |-> V, exit |-> exit, violations |-> violations,
                    printed |-> printed, sumlines |-> sumlines, perr |-> Cardinality(perr),
-                   unparsed |-> Unparsed]))
+                   unparsed |-> Unparsed, stale |-> Cardinality(Stale)]))
 Accept == (Source = "file" /\ Done /\ todo = Len(Traces[tid].ev) + 1) => TLCSet(1, TLCGet(1) \cup {tid})
 Post == IF Source = "file" THEN PrintT(ToJson([accepted |-> TLCGet(1), total |-> Len(Traces)])) ELSE TRUE
 =============================================================================
